@@ -808,7 +808,26 @@ class VariantFlow:
             init = set(itertools.product(*self.doms))
         self.state = {0: frozenset(init)}
         self.edge_state = {}
+        # blocks that (re)define the root of a tracked path: the component is
+        # widened to all variants when control passes through them
+        self.widen_at = defaultdict(list)
+        for k, (cp, _) in enumerate(tracked):
+            root = cp[0]
+            if root[0] in ("call", "agg"):
+                self.widen_at[root[1]].append(k)
+            elif root[0] == "local":
+                for (bb, idx, kind, payload) in fn.defs().get(root[1], []) + \
+                        fn.partial_defs().get(root[1], []):
+                    self.widen_at[bb].append(k)
         self._run()
+
+    def _widen(self, st, comps):
+        import itertools
+        out = set()
+        for t in st:
+            choices = [self.doms[i] if i in comps else [t[i]] for i in range(len(t))]
+            out.update(itertools.product(*choices))
+        return frozenset(out)
 
     def _filter(self, st, comp, allowed):
         allowed = set(allowed)
@@ -824,6 +843,8 @@ class VariantFlow:
             st = self.state.get(bb, frozenset())
             if not st:
                 continue
+            if bb in self.widen_at:
+                st = self._widen(st, set(self.widen_at[bb]))
             info = fn.switch_info(bb) if fn.term(bb)["k"] == "switch" else None
             outs = []
             if info and info["kind"] == "discr":
